@@ -39,7 +39,10 @@ def run(sid, units=None):
             print("patch does not apply to /repo HEAD %s:" % head, r.stdout.decode()); return 2
         env = dict(os.environ, VP_REPO=wt, VP_NO_EVIDENCE="1")
         for p in props:
-            cmds = ["./check %s --unit %s" % (p, u) for u in units] if units else ["./check %s" % p]
+            # targeted runs name the units of the function the change touches; they are run in the thorough tier so
+            # that a unit that is thorough-only (too slow for the quick tier) still counts, and the result records
+            # whether the catching unit is also part of the quick tier
+            cmds = ["./check %s --tier thorough --unit %s" % (p, u) for u in units] if units else ["./check %s" % p]
             for c in cmds:
                 t0 = time.time()
                 o = sh(c, cwd=VERIF, env=env)
@@ -54,6 +57,12 @@ def run(sid, units=None):
     res["caught"] = any(r["exit"] == 1 for r in res["runs"])
     res["caught_by"] = sorted({l.split(":")[0].replace("FAILED OBLIGATION ", "") + ":" + l.split(":")[1].split(" --")[0]
                                for r in res["runs"] for l in r["lines"] if l.startswith("FAILED OBLIGATION")})
+    try:
+        plan = json.load(open(os.path.join(VERIF, "quick_plan.json"))).get("props", {})
+        res["caught_in_quick_tier"] = sorted({c for c in res["caught_by"] for p in props
+                                              if c.split(":")[0].strip() in plan.get(p, [])})
+    except Exception:
+        pass
     json.dump(res, open(os.path.join(d, "result.json"), "w"), indent=1)
     return 0
 
